@@ -191,9 +191,61 @@ def oracle_inv_grad(ck, dims, m, J, filt, size, mask):
     return None
 
 
+def oracle_dot(ck, dims, m, J, filt, shape):
+    """sizes at which the Jacobian cannot be assembled: the transform is linear, so <T x, g> = <x, T^T g> per (batch, channel)
+    slice for the forward module, and <T^{-1} P, g> = <P, grad> for the inverse; exact on integers.  shape = (N, C, ...)."""
+    rng = ck.rng
+    L = len(filt[0])
+    fwd, inv = modules(dims, m, J, filt, tuple(shape))
+    desc = '%dD module gradient, adjoint identity per slice, mode=%s J=%d L=%d shape=%s' % (dims, gen.MODE_NAME[m], J, L, tuple(shape))
+    replay = {'oracle': 'dot', 'dims': dims, 'm': m, 'J': J, 'filt': [arr_json(f) for f in filt], 'shape': list(shape)}
+    sl = lambda t: t.reshape(t.shape[0], t.shape[1], -1)
+    try:
+        x = T(gen.int_tensor(rng, tuple(shape), 3)).requires_grad_(True)
+        yl, yh = fwd(x)
+        outs = [yl] + list(yh)
+        cots = [T(gen.int_tensor(rng, tuple(o.shape), 3)) for o in outs]
+        (gx,) = torch.autograd.grad(outs, [x], cots)
+        lhs = sum((sl(o.detach()) * sl(c)).sum(-1) for o, c in zip(outs, cots))
+        rhs = (sl(x.detach()) * sl(gx)).sum(-1)
+        if not torch.equal(lhs, rhs):
+            n0, c0 = [int(v) for v in torch.nonzero(lhs != rhs)[0]]
+            ck.fail(desc + ': forward module, slice (%d,%d): <T x, g> = %r but <x, grad> = %r' % (n0, c0, float(lhs[n0, c0]), float(rhs[n0, c0])), replay)
+            return 'diff'
+        ps = [T(gen.int_tensor(rng, tuple(o.shape), 3)).requires_grad_(True) for o in outs]
+        y = inv((ps[0], ps[1:]))
+        g = T(gen.int_tensor(rng, tuple(y.shape), 3))
+        gs = torch.autograd.grad([y], ps, [g])
+        lhs = (sl(y.detach()) * sl(g)).sum(-1)
+        rhs = sum((sl(p.detach()) * sl(gp)).sum(-1) for p, gp in zip(ps, gs))
+        if not torch.equal(lhs, rhs):
+            n0, c0 = [int(v) for v in torch.nonzero(lhs != rhs)[0]]
+            ck.fail(desc + ': inverse module, slice (%d,%d): <T^-1 P, g> = %r but <P, grad> = %r' % (n0, c0, float(lhs[n0, c0]), float(rhs[n0, c0])), replay)
+            return 'diff'
+    except Exception as e:
+        ck.fail(desc + ': raises %s: %s' % (type(e).__name__, str(e)[:120]), replay)
+        return 'raise'
+    ck.oracle_ok(('dot', dims, m, J, L, tuple(shape)), group='adjoint-identity-%dd' % dims, sample={'what': desc})
+    return None
+
+
 def oracle(ck, extended):
     rng = ck.rng
     q = ck.tier == 'quick'
+    # sizes above every blocking / tiling threshold (gen.scale_shapes_*), in the two modes whose backward passes are adjoints
+    # (zero, and periodization where no level is shorter than the filter): the adjoint identity per slice, forward and inverse modules
+    for k, shp in enumerate(gen.scale_shapes_2d(ck.tier)):
+        for m_ in (0, 2):
+            Lk = [2, 4, 6, 8][(k + m_) % 4]; Jk = 1 + (k + m_ // 2) % 2
+            if m_ == 2 and min(shp[2], shp[3]) < Lk * 2 ** Jk:
+                Jk = 1
+            if m_ == 2 and min(shp[2], shp[3]) + 1 < Lk:
+                continue
+            rt.guard(ck, oracle_dot, ck, 2, m_, Jk, (gen.int_filter(rng, Lk), gen.int_filter(rng, Lk)), shp)
+    for k, shp in enumerate(gen.scale_shapes_1d(ck.tier)):
+        for m_ in (0, 2):
+            Lk = [2, 4, 6, 8][(k + m_) % 4]
+            rt.guard(ck, oracle_dot, ck, 1, m_, 1 + (k + m_ // 2) % 2 if shp[2] >= 64 else 1, (gen.int_filter(rng, Lk), gen.int_filter(rng, Lk)), shp)
     # deterministic witnesses of the three recorded findings
     f4 = (np.array([1., 2., 3., 4.]), np.array([2., -1., 3., 1.])); f6 = (np.array([1., 2., 3., 4., -1., 2.]), np.array([2., -1., 3., 1., 1., -2.]))
     rt.guard(ck, oracle_fwd_grad, ck, 1, 1, 1, f4, (6,))
@@ -253,7 +305,9 @@ def replay(ck, path):
         return 1
     filt = tuple(arr_from(a) for a in f['filt'])
     FORCE[0] = f.get('force')
-    if f['oracle'] == 'fwd_grad':
+    if f['oracle'] == 'dot':
+        oracle_dot(ck, f['dims'], f['m'], f['J'], filt, tuple(f['shape']))
+    elif f['oracle'] == 'fwd_grad':
         oracle_fwd_grad(ck, f['dims'], f['m'], f['J'], filt, tuple(f['shape']), f.get('chan', 1))
     else:
         oracle_inv_grad(ck, f['dims'], f['m'], f['J'], filt, f['size'], f['mask'])
